@@ -1,4 +1,121 @@
-(* C05 placeholder: statements follow *)
-From Gws Require Import Lib.Base.
-Theorem C05_placeholder : True. Proof. exact I. Qed.
-Print Assumptions C05_placeholder.
+(* C05 - Outbound bytes are a sequence of well-formed RFC 6455 frames.
+   Statements only; every theorem is closed by a lemma of Proofs/WriterProofs.v or Proofs/FrameProofs.v.
+   The deflate encoder is a parameter: `deflate_raw dict payload` is whatever flate.Writer emits after
+   ResetDict/Write/Flush; the only facts assumed about it are that it returns bytes and fewer than 2^63 of them. *)
+From Gws Require Import Lib.Base Spec.MaskSpec Spec.Rfc6455 Model.Mask Model.Header Model.Writer
+  Proofs.FrameProofs Proofs.WriterProofs.
+Local Open Scope N_scope.
+
+Section C05.
+Variable utf8_valid : list N -> bool.
+Variable deflate_raw : list N -> list N -> list N.
+Hypothesis deflate_wf : forall d p, wf_bytes (deflate_raw d p).
+Hypothesis deflate_small : forall d p, (Z.of_nat (length (deflate_raw d p)) < 2 ^ 63)%Z.
+
+(* Whatever genFrame returns, for every role, opcode, flag combination, mask key, payload (of any length
+   below 2^63, i.e. every length-encoding boundary) and compression setting, the INDEPENDENT decoder of
+   Spec/Rfc6455.v reads back exactly one frame followed by the untouched rest: shortest length form,
+   mask bit and key iff the sender is a client, RSV2/RSV3 clear, RSV1 only when the payload is the
+   compressor's output (data opcodes only), and the unmasked payload equal to what was asked. *)
+Theorem C05_decode_gen : forall c op slices fc key dict bytes rest,
+  op < 16 -> length key = 4%nat -> wf_bytes key -> wf_bytes (concat slices) ->
+  (Z.of_nat (length (concat slices)) < 2 ^ 63)%Z ->
+  gen_frame utf8_valid deflate_raw c op slices fc key dict = GFrame bytes ->
+  exists rsv1 payload,
+    decode_frame (bytes ++ rest)
+      = DFrame {| f_fin := fc_fin fc; f_rsv1 := rsv1; f_rsv2 := false; f_rsv3 := false; f_op := op;
+                  f_masked := negb (w_server c); f_key := if w_server c then [] else key; f_payload := payload |}
+               true rest
+    /\ (rsv1 = false -> payload = concat slices)
+    /\ (rsv1 = true -> fc_compress fc = true /\ is_data op = true
+                      /\ payload = strip_tail (deflate_raw (if fc_broadcast fc then [] else dict) (concat slices))).
+Proof. exact (decode_gen_frame utf8_valid deflate_raw deflate_wf deflate_small). Qed.
+
+(* ... and that frame passes the outbound well-formedness predicate of the spec (control frames: FIN, <= 125 bytes, no RSV1) *)
+Theorem C05_outbound_wf : forall c op slices fc key dict bytes rest,
+  op_known op = true -> length key = 4%nat -> wf_bytes key -> wf_bytes (concat slices) ->
+  (Z.of_nat (length (concat slices)) < 2 ^ 63)%Z ->
+  (is_control op = true -> fc_fin fc = true /\ (length (concat slices) <= 125)%nat) ->
+  gen_frame utf8_valid deflate_raw c op slices fc key dict = GFrame bytes ->
+  exists f, decode_frame (bytes ++ rest) = DFrame f true rest /\ outbound_wf (w_server c) f true = true.
+Proof. exact (gen_frame_outbound_wf utf8_valid deflate_raw deflate_wf deflate_small). Qed.
+
+(* every buffered write API (WriteMessage, WriteString, Writev, Write*Async, ping/pong; doWrite) hands the transport
+   exactly one complete frame with FIN set, in one Write call *)
+Theorem C05_do_write_one_frame : forall (W : Type) (wdict : W -> list N) (wwrite : W -> list N -> W)
+  c closed w op slices key fr w' rest,
+  op < 16 -> length key = 4%nat -> wf_bytes key -> wf_bytes (concat slices) ->
+  (Z.of_nat (length (concat slices)) < 2 ^ 63)%Z ->
+  do_write utf8_valid deflate_raw W wdict wwrite c closed w op slices key = (Some fr, w', WOk) ->
+  exists f, decode_frame (fr ++ rest) = DFrame f true rest /\ f_fin f = true /\ f_op f = op.
+Proof.
+  intros W wdict wwrite c closed w op slices key fr w' rest Hop Hk Hkw Hp Hn H.
+  unfold do_write in H. destruct (negb (op =? 8) && closed); [discriminate|].
+  destruct (gen_frame _ _ _ _ _ _ _ _) as [b| | |] eqn:E; try discriminate.
+  injection H as <- _.
+  destruct (decode_gen_frame utf8_valid deflate_raw deflate_wf deflate_small _ _ _ _ _ _ _ rest Hop Hk Hkw Hp Hn E)
+    as (rsv1 & payload & Hd & _).
+  eexists. split; [exact Hd|]. split; reflexivity.
+Qed.
+End C05.
+
+(* streamed sends (WriteFile without compression): for EVERY sequence of reader results the frames are the RFC
+   encodings of: first frame with the message opcode (RSV1 iff compression was negotiated), continuation frames
+   after it, FIN exactly on the frame that carried EOF *)
+Theorem C05_stream_frames : forall utf8_valid deflate_raw c op, op < 16 -> forall reads index keys frs,
+  reads_ok c reads keys ->
+  split_reader utf8_valid deflate_raw c op index reads keys = (frs, FOk) ->
+  frs = map (encode_frame LShortest) (file_frames (w_server c) (w_pmd c) op index reads keys)
+  /\ exists k, (k < length reads)%nat /\ snd (nth k reads ([], false)) = true
+               /\ forall j, (j < k)%nat -> snd (nth j reads ([], false)) = false.
+Proof. exact split_reader_frames. Qed.
+
+(* ... and that frame list is exactly ONE message whose payload is the concatenation of everything read *)
+Theorem C05_stream_one_message : forall server pmd op reads keys,
+  (op = 1 \/ op = 2) -> reads_terminated reads = true ->
+  exists k, group_messages None (file_frames server pmd op 0 reads keys) = Some [WData op pmd (reads_payload reads) k].
+Proof. exact (file_frames_one_message (fun _ => true) (fun _ _ => [])). Qed.
+
+(* compressed streamed sends: for EVERY way the compressor cuts its output into Write calls, the segments that
+   flateWriter hands to the frame callback are numbered 0,1,2.., only the last one is final, and concatenated they are
+   the compressed stream with the 00 00 ff ff sync-flush tail removed (RFC 7692 7.2.1) *)
+Theorem C05_flate_segments : forall writes segs,
+  fw_run {| fw_index := 0; fw_buffers := [] |} writes = Some segs ->
+  concat (map snd segs) = strip_tail (concat writes)
+  /\ map (fun x => fst (fst x)) segs = seq 0 (length segs)
+  /\ exists init lst, segs = init ++ [lst] /\ snd (fst lst) = true /\ Forall (fun x => snd (fst x) = false) init.
+Proof.
+  intros writes segs H. split.
+  - rewrite (fw_run_concat _ _ _ H). reflexivity.
+  - exact (fw_run_shape _ _ _ H).
+Qed.
+
+(* the spec decoder inverts the spec encoder for every frame and every length form a peer may choose *)
+Theorem C05_spec_roundtrip : forall lf f rest,
+  frame_wf f -> lenform_ok lf (N.of_nat (length (f_payload f))) -> N.of_nat (length (f_payload f)) < 2 ^ 63 ->
+  decode_frame (encode_frame lf f ++ rest) = DFrame f (minimal_of lf (N.of_nat (length (f_payload f)))) rest.
+Proof. exact decode_encode. Qed.
+
+(* non-vacuity: a client text frame of 200 bytes (16-bit length form, masked) built by the model decodes to itself *)
+Example C05_nonvacuous :
+  let c := {| w_server := false; w_pmd := false; w_threshold := 512; w_wlimit := 1000; w_utf8 := false |} in
+  let p := map N.of_nat (seq 0 200) in
+  let key := [7; 8; 9; 10] in
+  match gen_frame (fun _ => true) (fun _ _ => []) c 1 [p]
+          {| fc_fin := true; fc_compress := false; fc_broadcast := false; fc_check := false |} key [] with
+  | GFrame b => length b = 208%nat /\ nth 1 b 0 = 254 /\
+                match decode_frame (b ++ [1; 2; 3]) with
+                | DFrame f true [1; 2; 3] => f_payload f = p /\ f_masked f = true
+                | _ => False
+                end
+  | _ => False
+  end.
+Proof. vm_compute. repeat split; reflexivity. Qed.
+
+Print Assumptions C05_decode_gen.
+Print Assumptions C05_outbound_wf.
+Print Assumptions C05_do_write_one_frame.
+Print Assumptions C05_stream_frames.
+Print Assumptions C05_stream_one_message.
+Print Assumptions C05_flate_segments.
+Print Assumptions C05_spec_roundtrip.
